@@ -34,6 +34,8 @@ fn drivers() -> Vec<Box<dyn Driver>> {
         Box::new(props::c13::C13),
         Box::new(props::c14::C14),
         Box::new(props::c17::C17),
+        Box::new(props::c18::C18),
+        Box::new(props::c19::C19),
     ]
 }
 
@@ -78,7 +80,7 @@ fn main() {
             std::process::exit(run_replay(d.as_ref(), &args[3]));
         }
         "worker" => {
-            std::panic::set_hook(Box::new(|_| {}));
+            props::c18::install_panic_recorder();
             let d = find(&args[2]);
             let tier = Tier::parse(&args[3]).unwrap();
             let seed: u64 = args[4].parse().unwrap();
@@ -138,6 +140,12 @@ fn main() {
             if let Ok(f) = parser.format() {
                 println!("FORMATTED:\n{f}");
             }
+        }
+        "try-stages" => {
+            props::c18::install_panic_recorder();
+            let text = std::fs::read_to_string(&args[2]).unwrap();
+            let (log, panic) = props::c18::run_all_stages(&text);
+            println!("{:?}\npanic: {:?}", log, panic);
         }
         "try-expr" => {
             // rv try-expr '<expression>': compile it as an objective and print the tree or the error
